@@ -53,7 +53,7 @@ PROPS = {
                 assumptions=["atomicity of hashmap.Get / Compute (C15)", "no expiry calculator (the read-extension of deadlines is a second atomic access)",
                              "loader-backed Get is covered by the C08/C09 protocol engine", "histories longer than 60 events per key are not searched (none occur)"]),
     "C14": dict(engines=[SCHED, DRAIN],
-                rule="sched engine (the tie between the Coq drain-status model and the code): 150 schedules per unit of scale over 1-3 writers, 0-2 explicit CleanUp callers and every maintenance task they spawn; "
+                rule="sched engine (the tie between the Coq drain-status model and the code): 150 schedules per unit of scale (plus two scripted ones) over 1-3 writers, 0-2 readers (hits on a pre-inserted entry: afterRead -> shouldDrainBuffers), 0-2 explicit CleanUp callers and every maintenance task they spawn; "
                      "every goroutine parks at the protocol's hook points (before/after the status load in scheduleAfterWrite, before TryLock, after TryLock, after the executor call, start of the task, start of "
                      "maintenance, before the final status transition, start of rescheduleCleanUpIfIncomplete) and exactly one is resumed at a time until its next hook point, the end of its call, or until it "
                      "blocks on the eviction lock (decided from the goroutine's wait reason in the runtime stack dump, not from timing); the executor is the harness's (one goroutine per task like the default, "
@@ -67,7 +67,7 @@ PROPS = {
                      "distinct_nontrivial = distinct (writers, readers, perturbation, burst) combinations",
                 assumptions=["the unbounded theorem is about configurations in which nothing can move; that every schedule is finite (fair termination) is not proved",
                              "the sched engine interleaves at hook-point granularity (9 points): interleavings inside one macro step (e.g. between the status store and the executor call) are covered by the small-step theorem only through the model",
-                             "sync.Mutex, goroutine creation and the memory model of sync/atomic are modelled", "InvalidateAll and the 100-refusal caller-runs fallback are outside the model"]),
+                             "sync.Mutex, goroutine creation and the memory model of sync/atomic are modelled", "InvalidateAll and the 100-refusal caller-runs fallback are outside the model; readers are in the model (a reader that finds the read buffer full is covered by the theorem, the engine produces only buffered reads)"]),
     "C08": dict(engines=[LOAD], rule=LOAD_RULE, assumptions=LOAD_ASSUME),
     "C09": dict(engines=[LOAD], rule=LOAD_RULE, assumptions=LOAD_ASSUME),
     "C15": dict(engines=[HMAP],
